@@ -3,7 +3,10 @@ from facts import walk, callee_of, call_args, loc
 import hirq, anchors, absx, cone, engine
 
 EXPLANATION = ("G1 on every path of the frame decoder, `Ok(None)` (need more bytes) is returned exactly when the TLV parser reported "
-               "Incomplete, and no buffer-mutating call (advance, split_to, truncate, clear, ...) precedes that return; G2 every path "
+               "Incomplete, and no buffer-mutating call (advance, split_to, truncate, clear, ...) precedes that return; a path that answers "
+               "anything else after Incomplete must have established that the whole outermost element is already buffered (len(buf) >= "
+               "identifier octet + length octets + announced length), i.e. be dead - decided by evaluating the decoder for each of the "
+               "256 values of the first length octet with the other octets and the buffer length symbolic (rules/framelen.py); G2 every path "
                "that got past the parser consumes exactly once, by `buf.advance(buf.len() - rest.len())` where rest is the remainder "
                "component of that very parser result, and the parser is applied to the whole buffer; G3 every nom primitive reachable "
                "from the TLV parser (MIR call graph) is the `streaming` variant, so a short buffer yields Incomplete rather than an error "
@@ -98,7 +101,7 @@ def check_frame_decoder(ctx, f, G1='G1', G2='G2'):
         def verdict(o):
             pterm, inc, is_err = parser_verdict(o)
             return inc, o.val == NEED_MORE
-        bad = framelen.incomplete_answers(f, B, buf, 'lber::parse::Parser::parse', verdict)
+        bad = framelen.incomplete_answers(f, B, buf, 'lber::parse::Parser::parse', verdict, mutations)
         ctx.add(G1 + '.incomplete-means-need-more', dp, loc(B.root), not bad,
                 'the parser reported Incomplete but the decoder returned %s on a path that can be taken while the frame is still incomplete '
                 '(evaluated for all 256 values of the first length octet; wrong for %s): with first length octet 0x%02x %s' %
